@@ -149,6 +149,11 @@ def do_replay(path, quiet):
         return 2
     if not quiet:
         print(f"seed={scenario.get('seed')} property={prop_id} profile={scenario.get('profile')}")
+        try:
+            print("scenario: " + json.dumps(runner.prop_module(prop_id).summarise(scenario), ensure_ascii=False)[:3000])
+        except Exception:  # pylint:disable=broad-except
+            pass
+        print("event log (loop step, virtual time [s], event, request, peer kind, key, occurrence, latency decision):")
         for entry in verdict.get("log", []):
             print("  " + " ".join(str(x) for x in entry))
         print(f"log_digest={verdict.get('log_digest')} sim_time={verdict.get('sim_time')} steps={verdict.get('steps')}")
